@@ -128,6 +128,7 @@ func cmdCheck(args []string) {
 	var jobs []*job
 	for _, s := range specs {
 		s.Prop, s.ReplayBin, s.ReplayDir, s.Seed = *prop, bin, replayDir, seed
+		s.RunID = len(jobs)
 		s.Cross = *tier == "thorough"
 		knows := s.OpenKeys
 		s.OpenKeys = openKeys
@@ -137,6 +138,7 @@ func cmdCheck(args []string) {
 			for _, k := range knows {
 				if k == open[i].Key {
 					c := s
+					c.RunID = len(jobs)
 					c.KnownMode = "confirm:" + k
 					c.Cross = false
 					jobs = append(jobs, &job{spec: c, kf: &open[i]})
